@@ -149,7 +149,7 @@ def l2_l4(prog, rep):
     if ok:
         g0 = [(op, sh(L), sh(R)) for cond, truth in pre.edge_conds(calls[0]) for op, L, R, _, _ in cond_atoms(cond, truth)]
         g1 = [(op, sh(L), sh(R)) for cond, truth in pre.edge_conds(calls[1]) for op, L, R, _, _ in cond_atoms(cond, truth)]
-        ok = ("!=", "bytemod", "0") in g0 and ("<=", "(bytemod+*buflen_p)", "16") in g0 and (">", "(bytemod+*buflen_p)", "16") in g1 and ("!=", "bytemod", "0") in g1
+        ok = ("!=", "bytemod", "0") in g0 and any(o == "<=" and l in ("(bytemod+*buflen_p)", "(*buflen_p+bytemod)") and r == "16" for o, l, r in g0) and any(o == ">" and l in ("(bytemod+*buflen_p)", "(*buflen_p+bytemod)") and r == "16" for o, l, r in g1) and ("!=", "bytemod", "0") in g1
         r1 = [r for r in pre.returns() if norm(r.kid(0)) == ("c", 1)]
         ok = ok and len(r1) == 1 and pre.dominates(calls[0], r1[0])
     rep.check(ok, "L4-position", "pre_wholeblock: continue the current cipherblock at offset bytectr % 16, finishing the request or the block", pre.loc, "", function=pre.name, construct="pre")
@@ -177,7 +177,7 @@ def l2_l4(prog, rep):
     stv = [c for c in w.calls("_mm_storeu_si128")]
     ok = len(ld) == 1 and len(stv) == 1 and sh(norm(ld[0].arg(0))) == "*inbuf" and sh(norm(stv[0].arg(0))) == "*outbuf" and w.dominates(ld[0], stv[0]) and ld[0].block.id == stv[0].block.id
     adv = sorted((sh(norm(e.kid(0))), e.op, sh(norm(e.kid(1)))) for e in w.all_elems() if e.is_assign and e.op in ("+=", "-="))
-    okadv = ("*inbuf", "+=", "16") in adv and ("*outbuf", "+=", "16") in adv and ("*buflen", "-=", "(16*num_blocks)") in adv and ("stream->bytectr", "+=", "(16*num_blocks)") in adv
+    okadv = ("*inbuf", "+=", "16") in adv and ("*outbuf", "+=", "16") in adv and ("*buflen", "-=", "(num_blocks*16)") in adv and ("stream->bytectr", "+=", "(num_blocks*16)") in adv
     if ok:
         ia = [e for e in w.all_elems() if e.is_assign and sh(norm(e.kid(0))) in ("*inbuf", "*outbuf")]
         ok = all(w.dominates(stv[0], e) for e in ia)
